@@ -58,7 +58,7 @@ PROPS = {
     },
     "C02": {
         "title": "Closing and reopening a store preserves exactly its contents, deletions included",
-        "rules": [k3.s2_live_vs_recovery, k4.v1_log_iterator_eof, k1.w7_recovery_read_only, k5.o1_recovery_order, k2m.p5_merge_outputs_before_unlink, k5.ghint_hint_validation, k4.v5_hint_fallback, k2m.p4_merge_per_entry_order, k2m.s7_s8_merge_sets, k3.s1_roles, k9.s15_position_tracking, k9.s16_file_names, k9.s22_one_codec, k9.p21_new_active_datafile, k2.p3_publish_after_append, k10.s24_record_symmetry],
+        "rules": [k3.s2_live_vs_recovery, k4.v1_log_iterator_eof, k1.w7_recovery_read_only, k5.o1_recovery_order, k2m.p5_merge_outputs_before_unlink, k5.ghint_hint_validation, k4.v5_hint_fallback, k2m.p4_merge_per_entry_order, k2m.s7_s8_merge_sets, k3.s1_roles, k9.s15_position_tracking, k9.s16_file_names, k9.s22_one_codec, k9.p21_new_active_datafile, k2.p3_publish_after_append, k10.s24_record_symmetry, k1.w1_file_mutation_api, controls.control("W1")],
         "decides": "replaying a record performs the index effects writing it performed (tombstones remove); the sequential decoder stops cleanly exactly at end of file; recovery is read-only and creates one fresh file; files are replayed in ascending numeric id order; a merge always rotates the active file above its outputs (so later writes replay after merged copies); hint entries are admitted up to and including the end of the data file; only a missing hint falls back to the scan; hint records mirror the re-pointed entry by role and are appended in the right output; the sequential reader reports each record's (position before, bytes consumed); data/hint file names are `<id>.….<ext>` with distinct extensions and sorted_fileids recognises exactly the data extension; one bincode configuration on both sides; new_active_datafile always switches; the index changes only after the record (value or tombstone) was appended successfully — a failed delete leaves the key in place, memory and disk agree at the next open; the on-disk record types written are the types read, and each record's Serialize and Deserialize sides emit and decode the same fields, of the same types, in the same order, unconditionally (bincode is positional)",
         "not_decided": "equality of recovered values over histories; max+1 arithmetic beyond its shape",
     },
@@ -70,7 +70,7 @@ PROPS = {
     },
     "C04": {
         "title": "Concurrent gets, sets and deletes are linearizable and never panic or hang",
-        "rules": [k2.p6_reader_pool, k2.p6b_pool_filled, k6.n2_mmap_extent, k7.l1_lock_order, k2.p18_handle_delegation, k2.p3_publish_after_append, k2m.p4_merge_per_entry_order, k1.w2_index_mutators, k5.p17_read_under_index_guard, k3.s2_live_vs_recovery, k9.s14_reader_cache_keying, k9.s21_forwarding, k9.n3_no_new_panic_sites, k9.s7b_merge_counts_in_output, k1.w1_file_mutation_api, controls.control("W1"), k10.n2b_remap_guard],
+        "rules": [k2.p6_reader_pool, k2.p6b_pool_filled, k6.n2_mmap_extent, k7.l1_lock_order, k2.p18_handle_delegation, k2.p3_publish_after_append, k2m.p4_merge_per_entry_order, k1.w2_index_mutators, k5.p17_read_under_index_guard, k3.s2_live_vs_recovery, k9.s14_reader_cache_keying, k9.s21_forwarding, k9.n3_no_new_panic_sites, k9.s7b_merge_counts_in_output, k1.w1_file_mutation_api, controls.control("W1"), k10.n2b_remap_guard, k9.s15_position_tracking],
         "decides": "the pooled reader returns on every exit incl. unwind; index published only after flushed bytes (put and merge); index mutated only under the writer mutex or before sharing; the file read happens under the index shard guard; the pool is filled to capacity; no shard re-entrancy and an acyclic lock order; Handle operations return the writer's verdict obtained under the lock; each reader's file cache is keyed by the id asked for; Handle::get returns what its pooled reader returned; every explicit panic site (unwrap/expect/borrow/panic!) on the paths of get/put/delete/merge/sync is one of the reviewed ones; merge books live entries on the output they are in (an under-counted file makes a later overwrite underflow and panic); data and merge output files are created exclusively (create_new): an id collision after a failed merge fails loudly instead of appending to a foreign file; the mapped reader maps the file again whenever the END of the requested record lies beyond its mapping (a record completed after the mapping was taken is found, not reported as beyond the end of the file)",
         "not_decided": "linearizability of histories and real-time order (statements about schedules of run-time events)",
     },
@@ -124,8 +124,8 @@ PROPS = {
     },
     "C13": {
         "title": "Compaction actually reclaims space and never grows the store",
-        "rules": [k2m.s7_s8_merge_sets, k2m.p5_merge_outputs_before_unlink, k3.s5_trigger_threshold_roles, k9.s13_counter_arithmetic, k9.s2c_unconditional_counting, k9.s7b_merge_counts_in_output, k9.p14b_merge_rollover_test, k8.s12_config_setters],
-        "decides": "only entries located in the selected files are copied and the selected set is exactly the removed set; each selected id loses accounting entry, hint file and data file, only NotFound tolerated; selection compares statistics with the thresholds, like with like; the counters behind the selection move as named and fragmentation = dead/(dead+live); dead records are counted unconditionally (a file holding only tombstones of absent keys still becomes eligible); copied entries are booked on the right output; merge outputs are rolled over on the running offset; no setting (e.g. a threshold) is rewritten between the setters and the running store; a merge that returns Ok removed every file it selected",
+        "rules": [k2m.s7_s8_merge_sets, k2m.p5_merge_outputs_before_unlink, k3.s5_trigger_threshold_roles, k9.s13_counter_arithmetic, k9.s2c_unconditional_counting, k9.s7b_merge_counts_in_output, k9.p14b_merge_rollover_test, k8.s12_config_setters, k5.ghint_hint_validation],
+        "decides": "only entries located in the selected files are copied and the selected set is exactly the removed set; each selected id loses accounting entry, hint file and data file, only NotFound tolerated; selection compares statistics with the thresholds, like with like; the counters behind the selection move as named and fragmentation = dead/(dead+live); dead records are counted unconditionally (a file holding only tombstones of absent keys still becomes eligible); copied entries are booked on the right output; merge outputs are rolled over on the running offset; no setting (e.g. a threshold) is rewritten between the setters and the running store; a merge that returns Ok removed every file it selected; a hint entry rejected by the extent test touches neither the index nor the per-file statistics (no phantom live keys)",
         "not_decided": "sizes, 'exactly as large as a fresh store', idempotence",
     },
     "C14": {
@@ -161,8 +161,8 @@ PROPS = {
     },
     "C19": {
         "title": "Per-file live/dead accounting always matches the files' real contents",
-        "rules": [k3.s3_displaced_accounting, k3.s2_live_vs_recovery, k2m.s7_s8_merge_sets, k9.s13_counter_arithmetic, k9.s2c_unconditional_counting, k9.s7b_merge_counts_in_output, k2.p3_publish_after_append],
-        "decides": "every displaced index entry is routed to overwrite(prev.len) on the file it lived in; every append is counted on the file it went to (before rollover) with the appended length; the rebuild counts like the live path; merge counts each copied entry live on the output it went to, looked up per entry; add_live/add_dead/overwrite change exactly the counters they name by 1 resp. the given byte count, on a single straight path; every record (also a tombstone of an absent key) is counted on the file it lies in on every path, in the writer and in the recovery scan alike; a merge books each copied entry on the output it was copied into (the id is not rolled over in between); the index (and with it the accounting of the displaced entry) changes only after the record was appended: a failed delete leaves index and counters untouched",
+        "rules": [k3.s3_displaced_accounting, k3.s2_live_vs_recovery, k2m.s7_s8_merge_sets, k9.s13_counter_arithmetic, k9.s2c_unconditional_counting, k9.s7b_merge_counts_in_output, k2.p3_publish_after_append, k5.ghint_hint_validation],
+        "decides": "every displaced index entry is routed to overwrite(prev.len) on the file it lived in; every append is counted on the file it went to (before rollover) with the appended length; the rebuild counts like the live path; merge counts each copied entry live on the output it went to, looked up per entry; add_live/add_dead/overwrite change exactly the counters they name by 1 resp. the given byte count, on a single straight path; every record (also a tombstone of an absent key) is counted on the file it lies in on every path, in the writer and in the recovery scan alike; a merge books each copied entry on the output it was copied into (the id is not rolled over in between); the index (and with it the accounting of the displaced entry) changes only after the record was appended: a failed delete leaves index and counters untouched; a hint entry rejected by the extent test touches neither the index nor the per-file statistics (no phantom live keys)",
         "not_decided": "equality with ground truth over histories; underflow of live_keys",
     },
     "C20": {
